@@ -27,21 +27,21 @@ import (
 func prototextish(m proto.Message) string { return prototext.MarshalOptions{}.Format(m) }
 
 type Stats struct {
-	Executions    int            `json:"executions"`
-	Workloads     int            `json:"workloads"`
-	NonTrivial    int            `json:"nontrivial"`
-	Ops           int            `json:"ops"`
-	Yields        int            `json:"yields"`
-	Switches      int            `json:"switches"`
-	ByPolicy      map[string]int `json:"by_policy"`
-	ByCodec       map[string]int `json:"by_codec"`
-	ByOpKind      map[string]int `json:"by_op_kind"`
-	Outcomes      map[string]int `json:"outcomes"`
-	Faults        map[string]int `json:"faults"`
-	Probes        map[string]int `json:"probes"`
-	SeqOrders     int            `json:"sequential_reference_executions"`
-	TypesUsed     map[string]int `json:"types_used"`
-	SwitchHist    map[string]int `json:"switches_per_run_hist"`
+	Executions int            `json:"executions"`
+	Workloads  int            `json:"workloads"`
+	NonTrivial int            `json:"nontrivial"`
+	Ops        int            `json:"ops"`
+	Yields     int            `json:"yields"`
+	Switches   int            `json:"switches"`
+	ByPolicy   map[string]int `json:"by_policy"`
+	ByCodec    map[string]int `json:"by_codec"`
+	ByOpKind   map[string]int `json:"by_op_kind"`
+	Outcomes   map[string]int `json:"outcomes"`
+	Faults     map[string]int `json:"faults"`
+	Probes     map[string]int `json:"probes"`
+	SeqOrders  int            `json:"sequential_reference_executions"`
+	TypesUsed  map[string]int `json:"types_used"`
+	SwitchHist map[string]int `json:"switches_per_run_hist"`
 }
 
 func newStats() *Stats {
